@@ -29,11 +29,20 @@ def _ctxvars(m):
     return out
 
 
+# private accessor functions of the registry module whose whole body is `return V.get()`: a call of one is V.get()
+# (filled by check() for the tree being analysed)
+_ACCESSORS: dict = {}
+
+
 def _is_var_get(e, var=None):
-    """``V.get()``"""
+    """``V.get()`` (or a call of a private accessor that returns exactly that)"""
     r = method_call(e, names={"get"})
     if r and isinstance(r[0], ast.Name) and (var is None or r[0].id == var) and not e.args:
         return r[0].id
+    if isinstance(e, ast.Call) and isinstance(e.func, ast.Name) and e.func.id in _ACCESSORS and not e.args and not e.keywords:
+        v = _ACCESSORS[e.func.id]
+        if var is None or v == var:
+            return v
     return None
 
 
@@ -87,6 +96,14 @@ def check(ctx):
                 if isinstance(t, ast.Name) and t.id in privates:
                     allowed.add(id(t))
     funcs = ix.funcs_in(m)
+    _ACCESSORS.clear()
+    for f in funcs:
+        if f.parent is None and f.cls is None and f.name.startswith("_") and not f.node.args.args and not f.node.args.kwonlyargs:
+            body = [s_ for s_ in f.node.body if not (isinstance(s_, ast.Expr) and isinstance(s_.value, ast.Constant))]
+            if len(body) == 1 and isinstance(body[0], ast.Return) and body[0].value is not None:
+                r_ = method_call(body[0].value, names={"get"}) if isinstance(body[0].value, ast.Call) else None
+                if r_ and isinstance(r_[0], ast.Name) and r_[0].id in cvars and not body[0].value.args:
+                    _ACCESSORS[f.name] = r_[0].id
 
     def owner(node):
         best = None
@@ -204,10 +221,18 @@ def check(ctx):
                             and s.value.args and isinstance(s.value.args[0], ast.Name) and s.value.args[0].id == tok)
 
             bad = None
+            # an exception raised by the set statement itself comes from evaluating its argument (or from set): the registry was not
+            # swapped yet, so only what follows the statement on its normal continuation has to reach a reset
+            starts = [s_ for s_, lab in cfg.succ[node.id] if lab not in ("exc", "raise")]
             for ex, exname in ((cfg.exit, "normal exit"), (cfg.raise_exit, "exceptional exit")):
-                p = cfg.path_avoiding(node.id, ex, is_reset)
-                if p is not None:
-                    bad = (exname, p)
+                for s0 in starts:
+                    if is_reset(cfg.nodes[s0]):
+                        continue
+                    p = [cfg.nodes[s0]] if s0 == ex else cfg.path_avoiding(s0, ex, is_reset)
+                    if p is not None:
+                        bad = (exname, [node] + p)
+                        break
+                if bad:
                     break
             if bad:
                 exname, p = bad
@@ -242,9 +267,31 @@ def check(ctx):
     for f in funcs:
         if f.parent is not None:
             continue
+        if f.name in _ACCESSORS:
+            rep.proved("R-C66-var", f"{m.relpath}:{f.qualname}", f"private accessor for {_ACCESSORS[f.name]}.get(): its call sites are judged as registry accesses",
+                       nontrivial=False)
+            continue
+        single = {}
+        for s_ in walk_shallow(f.node):
+            if isinstance(s_, ast.Assign) and len(s_.targets) == 1 and isinstance(s_.targets[0], ast.Name):
+                single.setdefault(s_.targets[0].id, []).append(s_.value)
+        single = {k: v_[0] for k, v_ in single.items() if len(v_) == 1}
+
+        def through_locals(e, depth=0):
+            """the returned expression with single-definition locals read through (`x = V.get()[k]; return x.copy()`)"""
+            if depth > 3:
+                return e
+            if isinstance(e, ast.Name) and e.id in single:
+                return through_locals(single[e.id], depth + 1)
+            if isinstance(e, ast.Call) and isinstance(e.func, ast.Attribute) and isinstance(e.func.value, ast.Name) and e.func.value.id in single:
+                return ast.Call(func=ast.Attribute(value=through_locals(single[e.func.value.id], depth + 1), attr=e.func.attr, ctx=ast.Load()),
+                                args=e.args, keywords=e.keywords)
+            if isinstance(e, ast.Subscript) and isinstance(e.value, ast.Name) and e.value.id in single:
+                return ast.Subscript(value=through_locals(single[e.value.id], depth + 1), slice=e.slice, ctx=ast.Load())
+            return e
         for n in walk_shallow(f.node):
             if isinstance(n, ast.Return) and n.value is not None:
-                e = n.value
+                e = through_locals(n.value)
                 v = _is_var_get(e)
                 if v in cvars:
                     n_ret += 1
